@@ -260,6 +260,109 @@ func (c *Ctx) c20NearCollinear(n int) c20pts {
 	return p
 }
 
+// c20TightCluster: a frame of ordinary points (dyadic coordinates, reaching into negative coordinates, optionally at an
+// offset) plus one or two clusters of 3-6 DISTINCT points whose spacing is 2^-k, k = 30 … 50 (as fine as the cluster
+// centre's ulp allows; the finest only around the origin).  Cluster points are centre + (i, j)·2^-k with small integers
+// (i, j) in general position (no three collinear, no four cocircular), so every coordinate is exactly representable and
+// the configuration is in general position; frame points come first, the cluster last (see below).
+func (c *Ctx) c20TightCluster() c20pts {
+	F := []float64{4, 16, 1024}[c.Rng.Intn(3)]
+	ox, oy := 0., 0.
+	switch c.Rng.Intn(5) {
+	case 0:
+		ox, oy = -300, 700
+	case 1:
+		ox, oy = 512, -256
+	}
+	// extreme scale mix (40 %): the finest clusters (2^-40 … 2^-50) at the origin itself, inside a frame of size 16 or 1024
+	// that reaches into negative coordinates
+	extreme := c.Rng.Intn(5) < 2
+	if extreme {
+		F = []float64{16, 1024}[c.Rng.Intn(2)]
+		ox, oy = 0, 0
+	}
+	q := F / 64
+	var p c20pts
+	seen := map[[2]float64]bool{}
+	add := func(x, y float64) {
+		if !seen[[2]float64{x, y}] {
+			seen[[2]float64{x, y}] = true
+			p = append(p, vector2.New(x, y))
+		}
+	}
+	m := 5 + c.Rng.Intn(8)
+	for len(p) < m {
+		add(ox+float64(c.Rng.Intn(129)-64)*q, oy+float64(c.Rng.Intn(129)-64)*q)
+	}
+	// ONE cluster, inserted AFTER the frame: float64 in-circle tests of a FAR point against a triangle made of three cluster
+	// points cancel catastrophically once spacing/distance < 2^-26 (documented float residue of the unchanged library, whose
+	// predicates are plain float64); with the frame first, every test involving cluster geometry is made relative to a
+	// cluster point, where the differences are exact
+	clusters := 1
+	for cl := 0; cl < clusters; cl++ {
+		cx, cy := ox, oy // frame-relative centre (0,0) half of the time: with no offset that is the origin itself
+		if !extreme && c.Rng.Intn(2) == 0 {
+			cx, cy = ox+float64(c.Rng.Intn(65)-32)*q, oy+float64(c.Rng.Intn(65)-32)*q
+		}
+		big := math.Max(math.Abs(cx), math.Abs(cy))
+		kmax := 50
+		if big > 0 {
+			_, e := math.Frexp(big) // big in [2^(e-1), 2^e): ulp = 2^(e-53); 5 more bits for the integer multiples
+			if 53-e-6 < kmax {
+				kmax = 53 - e - 6
+			}
+		}
+		if kmax < 30 {
+			kmax = 30
+		}
+		k := 30 + c.Rng.Intn(kmax-30+1)
+		if extreme {
+			k = 40 + c.Rng.Intn(11)
+		}
+		sp := math.Ldexp(1, -k)
+		kc := 3 + c.Rng.Intn(4)
+		var ij [][2]int
+		for tries := 0; len(ij) < kc && tries < 1000; tries++ {
+			cand := [2]int{c.Rng.Intn(32) - 15, c.Rng.Intn(32) - 15}
+			ok := true
+			for a := 0; a < len(ij) && ok; a++ {
+				if ij[a] == cand {
+					ok = false
+				}
+				for b := a + 1; b < len(ij) && ok; b++ {
+					if c20IntOrient(ij[a], ij[b], cand) == 0 {
+						ok = false
+					}
+					for d := b + 1; d < len(ij) && ok; d++ {
+						if c20IntInCircle(ij[a], ij[b], ij[d], cand) == 0 {
+							ok = false
+						}
+					}
+				}
+			}
+			if ok {
+				ij = append(ij, cand)
+			}
+		}
+		for _, v := range ij {
+			add(cx+float64(v[0])*sp, cy+float64(v[1])*sp)
+		}
+		c.Note(fmt.Sprintf("tightcluster.k%d", (k/5)*5))
+	}
+	return p
+}
+
+func c20IntOrient(a, b, d [2]int) int {
+	return (b[0]-a[0])*(d[1]-a[1]) - (d[0]-a[0])*(b[1]-a[1])
+}
+
+func c20IntInCircle(a, b, d, p [2]int) int {
+	ax, ay := a[0]-p[0], a[1]-p[1]
+	bx, by := b[0]-p[0], b[1]-p[1]
+	cx, cy := d[0]-p[0], d[1]-p[1]
+	return (ax*ax+ay*ay)*(bx*cy-cx*by) - (bx*bx+by*by)*(ax*cy-cx*ay) + (cx*cx+cy*cy)*(ax*by-bx*ay)
+}
+
 func c20Map(p c20pts, s, ox, oy float64) c20pts {
 	q := make(c20pts, len(p))
 	for i, v := range p {
@@ -303,7 +406,7 @@ func runC20(c *Ctx) {
 	for k := 0; k < c.N; k++ {
 		n := c.c20Size()
 		// ---- oracle lines on general-position (random float) inputs
-		switch k % 14 {
+		switch k % 17 {
 		case 0, 1:
 			c.c20Oracle("uniform", c.c20Uniform(n, 10, 10))
 		case 2:
@@ -387,6 +490,19 @@ func runC20(c *Ctx) {
 				oy = 0
 			}
 			c.c20Oracle("tinycluster", c20Map(c.c20Uniform(n, 10, 10), sp, ox, oy))
+		case 14, 15:
+			// a tight cluster of 3-6 distinct points (spacing 2^-30 … 2^-50 ≈ 1e-9 … 1e-15) inside an ordinary frame
+			c.c20Oracle("tightcluster", c.c20TightCluster())
+		case 16:
+			// whole clouds in very small / very large units
+			if n > 60 {
+				n = 4 + c.Rng.Intn(57)
+			}
+			if n < 4 {
+				n = 4
+			}
+			sc := []float64{1e-7, 1e-7, 1e-9, 1e7}[c.Rng.Intn(4)]
+			c.c20Oracle("scaled7", c20Map(c.c20Uniform(n, 10, 10), sc, 0, 0))
 		}
 		// ---- model lines on small-integer inputs (exact float arithmetic)
 		m := 3 + c.Rng.Intn(23)
